@@ -157,6 +157,15 @@ impl C15 {
                 let c: Vec<String> = lines.iter().enumerate().map(|(i, l)| if i == 2 { format!("{} R h", l.trim_end_matches('|')) + " |" } else { l.to_string() }).collect();
                 hostile.push(c.join("\n"));
                 hostile.push(printed.replacen('g', "x", 1).replacen(char::is_numeric, "99999999999999999999999", 1));
+                // ANOTHER arrangement (the ranks in reverse order) followed by a surplus rank with a piece: rejected,
+                // after the parser has already seen pieces on squares where this state has none
+                let mut d: Vec<String> = vec![lines[0].to_string(), lines[1].to_string()];
+                for r in (2..10).rev() {
+                    d.push(lines[r].to_string());
+                }
+                d.push("0| r   E           |".to_string());
+                d.push(lines[10].to_string());
+                hostile.push(d.join("\n"));
             }
             for h in &hostile {
                 if let Err(p) = parse_state(h) {
